@@ -2526,3 +2526,213 @@ Proof.
   induction ops1 as [|o ops1 IH]; intros s0 Hg; cbn in *; [reflexivity|].
   apply andb_true_iff in Hg. destruct Hg as [A B]. rewrite A. cbn. apply IH, B.
 Qed.
+
+(* ====================================================================== *)
+(* C14 registration_gate                                                  *)
+(* ====================================================================== *)
+(* what add_update_tower compares a receipt with: the expiry the client holds in memory and the slots of the tower's row *)
+Definition reg_extends (c : client) (t slots expiry : N) : bool :=
+  match aget (c_towers c) t with
+  | None => true
+  | Some su => N.ltb (su_expiry su) expiry &&
+               match load_tower_record (c_db c) t with LSome info => N.ltb (ti_slots info) slots | _ => false end
+  end.
+
+Lemma store_tower_rows d t addr slots start expiry sg d' :
+  dbm_store_tower_record d t addr slots start expiry sg = DbOk d' ->
+  tbl d' T_registration_receipts = tbl d T_registration_receipts ++ [[t; slots; start; expiry; sg]].
+Proof.
+  unfold dbm_store_tower_record. rewrite mkrow_rr.
+  destruct (has_pk CS d T_towers [t]).
+  - destruct (db_update CS d T_towers [t] _ false) as [d1|] eqn:E1; [|discriminate]. intros H.
+    pose proof (tbl_update CS d _ _ _ _ d1 E1) as [O1 _]. pose proof (tbl_insert CS d1 _ _ d' H) as [T2 _].
+    rewrite T2, O1 by discriminate. reflexivity.
+  - destruct (db_insert CS d T_towers _) as [d1|] eqn:E1; [|discriminate]. intros H.
+    pose proof (tbl_insert CS d _ _ d1 E1) as [_ [O1 _]]. pose proof (tbl_insert CS d1 _ _ d' H) as [T2 _].
+    rewrite T2, O1 by discriminate. reflexivity.
+Qed.
+
+Lemma add_update_tower_cases c t addr slots start expiry sg :
+  (snd (wt_add_update_tower c t addr slots start expiry sg) = ROk /\ reg_extends c t slots expiry = true /\
+   exists d', dbm_store_tower_record (c_db c) t addr slots start expiry sg = DbOk d' /\ c_db (fst (wt_add_update_tower c t addr slots start expiry sg)) = d') \/
+  (snd (wt_add_update_tower c t addr slots start expiry sg) <> ROk /\ c_db (fst (wt_add_update_tower c t addr slots start expiry sg)) = c_db c /\
+   (reg_extends c t slots expiry = true -> exists st, snd (wt_add_update_tower c t addr slots start expiry sg) = RAbort st)).
+Proof.
+  unfold wt_add_update_tower, reg_extends.
+  set (store := match dbm_store_tower_record (c_db c) t addr slots start expiry sg with DbOk _ => _ | DbErr _ => _ end).
+  assert (Hstore : (snd store = ROk /\ exists d', dbm_store_tower_record (c_db c) t addr slots start expiry sg = DbOk d' /\ c_db (fst store) = d') \/
+                   (snd store <> ROk /\ c_db (fst store) = c_db c /\ exists st, snd store = RAbort st)).
+  { unfold store. destruct (dbm_store_tower_record (c_db c) t addr slots start expiry sg) as [d'|e]; cbn.
+    - left. split; [reflexivity|]. exists d'. split; reflexivity.
+    - right. split; [discriminate|]. split; [reflexivity|eexists; reflexivity]. }
+  destruct (aget (c_towers c) t) as [su|] eqn:Et.
+  - destruct (N.leb expiry (su_expiry su)) eqn:El.
+    { right. cbn. apply N.leb_le in El. split; [discriminate|]. split; [reflexivity|]. intros Hx.
+      apply andb_true_iff in Hx. destruct Hx as [Hx _]. apply N.ltb_lt in Hx. lia. }
+    apply N.leb_gt in El. apply N.ltb_lt in El. rewrite El. cbn [andb].
+    destruct (load_tower_record (c_db c) t) as [|info|st].
+    + right. cbn. split; [discriminate|]. split; [reflexivity|discriminate].
+    + destruct (N.leb slots (ti_slots info)) eqn:Esl.
+      { right. cbn. apply N.leb_le in Esl. split; [discriminate|]. split; [reflexivity|]. intros Hx. apply N.ltb_lt in Hx. lia. }
+      apply N.leb_gt in Esl. apply N.ltb_lt in Esl. rewrite Esl.
+      destruct Hstore as [[A B]|[A [B C]]]; [left; tauto|right; split; [exact A|split; [exact B|intros _; exact C]]].
+    + right. cbn. split; [discriminate|]. split; [reflexivity|discriminate].
+  - destruct Hstore as [[A B]|[A [B C]]]; [left; tauto|right; split; [exact A|split; [exact B|intros _; exact C]]].
+Qed.
+
+Theorem registration_gate s t rp :
+  (snd (f_register s t t rp) = OOk ->
+     exists slots start expiry, rp = RReceipt slots start expiry true /\ reg_extends (f_c s) t slots expiry = true /\ poisoned s = false /\
+       tbl (c_db (f_c (fst (f_register s t t rp)))) T_registration_receipts =
+       tbl (c_db (f_c s)) T_registration_receipts ++ [[t; slots; start; expiry; REG_SIG]]) /\
+  (snd (f_register s t t rp) <> OOk -> c_db (f_c (fst (f_register s t t rp))) = c_db (f_c s)) /\
+  (forall slots start expiry, rp = RReceipt slots start expiry true -> reg_extends (f_c s) t slots expiry = true -> poisoned s = false ->
+     snd (f_register s t t rp) = OOk \/ exists site, snd (f_register s t t rp) = OPanic site).
+Proof.
+  unfold f_register. destruct (poisoned s) eqn:Hp.
+  { cbn. split; [discriminate|]. split; [reflexivity|]. intros; discriminate. }
+  destruct rp as [slots start expiry sig_ok| | | |]; cbn [fst snd];
+    try (split; [discriminate|]; split; [intros _; try destruct (amem _ _); reflexivity|intros; discriminate]).
+  destruct sig_ok; cbn [negb].
+  2:{ cbn. split; [discriminate|]. split; [reflexivity|]. intros ? ? ? H. inversion H. }
+  change (f_c (log_req s (ReqRegister t))) with (f_c s).
+  pose proof (add_update_tower_cases (f_c s) t t slots start expiry REG_SIG) as Hc.
+  destruct (wt_add_update_tower (f_c s) t t slots start expiry REG_SIG) as [c' r]. cbn [fst snd] in Hc.
+  destruct Hc as [[-> [Hext [d' [Es Ed]]]]|[Hne [Ed Hab]]].
+  - cbn [fst snd f_c wr_c]. split; [|split; [intros H; contradiction|intros; left; reflexivity]].
+    intros _. exists slots, start, expiry. split; [reflexivity|]. split; [exact Hext|]. split; [reflexivity|].
+    rewrite Ed. exact (store_tower_rows _ _ _ _ _ _ _ _ Es).
+  - destruct r; try contradiction; cbn [fst snd f_c set_c]; (split; [discriminate|]; split; [intros _; exact Ed|]);
+      intros ? ? ? H Hx _; inversion H; subst; destruct (Hab Hx) as [st Hst]; try discriminate.
+    right. eexists. reflexivity.
+  - (* connection error *)
+    split; [discriminate|]. split; [|intros; discriminate]. intros _.
+    destruct (amem (c_towers (f_c (log_req s (ReqRegister t)))) t); [|reflexivity]. cbn [f_c set_c]. apply DbInv_set_status.
+Qed.
+
+(* ====================================================================== *)
+(* C13 run_bounded                                                        *)
+(* ====================================================================== *)
+Lemma f_log_retrier_drop s t l : f_log (retrier_drop s t l) = f_log s.
+Proof. unfold retrier_drop. destruct (aget (f_mgr s) t); reflexivity. Qed.
+
+(* the for loop emits one add_appointment per locator it gets to, in order: a prefix of its list *)
+Lemma run_for_log t : forall locs s adds s' adds' res,
+  run_for s t locs adds = (s', adds', res) ->
+  exists done rest, locs = done ++ rest /\ f_log s' = f_log s ++ map (ReqAdd t) done /\ (res = None -> rest = []).
+Proof.
+  induction locs as [|l locs IH]; intros s adds s' adds' res E; cbn [run_for] in E.
+  { inversion E. subst. exists [], []. cbn. rewrite app_nil_r. repeat split; reflexivity. }
+  destruct (poisoned s).
+  { inversion E. subst. exists [], (l :: locs). cbn. rewrite app_nil_r. repeat split; try reflexivity. discriminate. }
+  destruct (dbm_load_appointment (c_db (f_c s)) l).
+  2:{ inversion E. subst. exists [], (l :: locs). cbn. rewrite app_nil_r. repeat split; try reflexivity. discriminate. }
+  destruct (next_reply adds) as [rp adds1].
+  assert (Hstop : forall sx, f_log sx = f_log s ++ [ReqAdd t l] -> forall rx, (sx, adds1, Some rx) = (s', adds', res) ->
+            exists done rest, l :: locs = done ++ rest /\ f_log s' = f_log s ++ map (ReqAdd t) done /\ (res = None -> rest = [])).
+  { intros sx Hx rx Hr. inversion Hr. subst. exists [l], locs. cbn. repeat split; try reflexivity; [exact Hx|discriminate]. }
+  assert (Hgo : forall sx, f_log sx = f_log s ++ [ReqAdd t l] -> run_for sx t locs adds1 = (s', adds', res) ->
+            exists done rest, l :: locs = done ++ rest /\ f_log s' = f_log s ++ map (ReqAdd t) done /\ (res = None -> rest = [])).
+  { intros sx Hx Hr. destruct (IH sx adds1 s' adds' res Hr) as [dn [rest [A [B C]]]]. exists (l :: dn), rest.
+    split; [cbn; rewrite A; reflexivity|]. split; [rewrite B, Hx; cbn; rewrite <- app_assoc; reflexivity|exact C]. }
+  destruct rp.
+  - destruct (wt_add_appointment_receipt _ _ _ _ _ _ _) as [c2 r2]. destruct (lift_site r2).
+    + eapply Hstop; [|exact E]. cbn [f_log wr_c]. rewrite f_log_retrier_drop. reflexivity.
+    + destruct (wt_remove_pending_appointment c2 t l) as [c3 r3]. destruct (lift_site r3).
+      * eapply Hstop; [|exact E]. cbn [f_log wr_c]. rewrite f_log_retrier_drop. reflexivity.
+      * eapply Hgo; [|exact E]. cbn [f_log wr_c]. rewrite f_log_retrier_drop. reflexivity.
+  - eapply Hstop; [|exact E]. reflexivity.
+  - eapply Hstop; [|exact E]. reflexivity.
+  - eapply Hstop; [|exact E]. reflexivity.
+  - eapply Hstop; [|exact E]. reflexivity.
+  - eapply Hstop; [|exact E]. reflexivity.
+  - eapply Hstop; [|exact E]. reflexivity.
+  - destruct (wt_add_invalid_appointment _ _ _ _ _) as [c2 r2]. destruct (lift_site r2).
+    + eapply Hstop; [|exact E]. cbn [f_log wr_c]. rewrite f_log_retrier_drop. reflexivity.
+    + destruct (wt_remove_pending_appointment c2 t l) as [c3 r3]. destruct (lift_site r3).
+      * eapply Hstop; [|exact E]. cbn [f_log wr_c]. rewrite f_log_retrier_drop. reflexivity.
+      * eapply Hgo; [|exact E]. cbn [f_log wr_c]. rewrite f_log_retrier_drop. reflexivity.
+Qed.
+
+(* in a state of the invariant the while loop needs at most two rounds: the first sends (a prefix of) the pending
+   set once, the second finds the set empty *)
+Lemma run_while_bounded t hint : forall fuel s adds s' res,
+  RunPre s t -> run_while (S (S fuel)) s t hint adds = (s', res) ->
+  res <> RunFuel /\ exists sent, f_log s' = f_log s ++ map (ReqAdd t) sent /\ NoDup sent /\ incl sent (retrier_pending s t).
+Proof.
+  intros fuel s adds s' res Hpre E.
+  change (run_while (S (S fuel)) s t hint adds) with
+    (match retrier_pending s t with
+     | [] => (s, RunOk)
+     | p => match run_for s t (reorder hint p) adds with
+            | (s1, _, Some r) => (s1, r)
+            | (s1, adds1, None) => run_while (S fuel) s1 t hint adds1
+            end
+     end) in E.
+  destruct (retrier_pending s t) as [|x p] eqn:Ep.
+  { inversion E. subst. split; [discriminate|]. exists []. cbn. rewrite app_nil_r. repeat split; [constructor|intros y []]. }
+  destruct (run_for s t (reorder hint (x :: p)) adds) as [[s1 adds1] r1] eqn:E1.
+  pose proof Hpre as [HF [Hp [Hk Hrun]]].
+  assert (Hnd : NoDup (x :: p)).
+  { destruct HF as [_ [_ [HV _]]]. destruct (HV Hp) as [_ [_ [_ [V4 _]]]]. unfold retrier_pending in Ep.
+    destruct (aget (f_mgr s) t) as [r|] eqn:Er; [|discriminate]. rewrite <- Ep. eapply V4, Er. }
+  pose proof (NoDup_reorder hint _ Hnd) as Hndr.
+  destruct (FInv_run_for t _ s adds s1 adds1 r1 Hpre Hndr) as [A [B [C [D F]]]]; [|exact E1|].
+  { intros l Hl. rewrite Ep. apply In_reorder in Hl. exact Hl. }
+  destruct (run_for_log t _ s adds s1 adds1 r1 E1) as [dn [rest [Hsplit [Hlog Hrest]]]].
+  assert (Hsent : NoDup dn /\ incl dn (x :: p)).
+  { rewrite Hsplit in Hndr. apply NoDup_app_iff in Hndr. split; [apply Hndr|]. intros y Hy. apply (In_reorder hint).
+    rewrite Hsplit. apply in_or_app. left. exact Hy. }
+  destruct r1 as [r|].
+  - inversion E. subst. split; [apply (run_for_not_ok t _ _ _ _ _ _ E1)|]. exists dn. split; [exact Hlog|exact Hsent].
+  - (* the whole set was processed: the next round finds it empty *)
+    assert (Hempty : retrier_pending s1 t = []).
+    { assert (Hno : forall y, ~ In y (retrier_pending s1 t)).
+      { intros y Hy. apply (C eq_refl y); [|exact Hy]. apply In_reorder. rewrite <- Ep. apply D, Hy. }
+      destruct (retrier_pending s1 t) as [|y q]; [reflexivity|]. exfalso. apply (Hno y). left. reflexivity. }
+    cbn [run_while] in E. rewrite Hempty in E. inversion E. subst. split; [discriminate|]. exists dn. split; [exact Hlog|exact Hsent].
+Qed.
+
+Theorem run_bounded ops t a :
+  ops_fresh f_init ops = true ->
+  let s := frun f_init ops in
+  In t (f_tasks s) ->
+  fst (run_attempt s t a) = fst (run_attempt s t a) /\
+  snd (run_attempt s t a) <> RunFuel /\
+  exists reg sent, f_log (fst (run_attempt s t a)) = f_log s ++ reg ++ map (ReqAdd t) sent /\
+                   (reg = [] \/ reg = [ReqRegister t]) /\ NoDup sent /\ incl sent (retrier_pending s t).
+Proof.
+  intros Hg s Hin. split; [reflexivity|].
+  pose proof (FInv_frun ops f_init FInv_init Hg) as HF. fold s in HF.
+  assert (Hrun : rstat s t = Some RRunning) by (apply HF, Hin).
+  unfold run_attempt. destruct (poisoned s) eqn:Hp.
+  { cbn. split; [discriminate|]. exists [], []. cbn. rewrite app_nil_r. repeat split; [left; reflexivity|constructor|intros y []]. }
+  destruct (aget (c_towers (f_c s)) t) as [su|] eqn:Et.
+  2:{ cbn. split; [discriminate|]. exists [], []. cbn. rewrite app_nil_r. repeat split; [left; reflexivity|constructor|intros y []]. }
+  assert (Hk : knownc (f_c s) t) by (unfold knownc, amem; rewrite Et; reflexivity).
+  assert (Hgo : forall s0 reg, FInv s0 -> poisoned s0 = false -> knownc (f_c s0) t -> rstat s0 t = Some RRunning ->
+            f_log s0 = f_log s ++ reg -> retrier_pending s0 t = retrier_pending s t ->
+            snd (run_while (run_fuel s0 t) s0 t (at_order a) (at_adds a)) <> RunFuel /\
+            exists sent, f_log (fst (run_while (run_fuel s0 t) s0 t (at_order a) (at_adds a))) = f_log s ++ reg ++ map (ReqAdd t) sent /\
+                         NoDup sent /\ incl sent (retrier_pending s t)).
+  { intros s0 reg H0 Hp0 Hk0 Hr0 Hl0 Hpe0. unfold run_fuel.
+    destruct (run_while (S (S (length (retrier_pending s0 t)))) s0 t (at_order a) (at_adds a)) as [sx rx] eqn:Ex.
+    destruct (run_while_bounded t (at_order a) _ s0 (at_adds a) sx rx (conj H0 (conj Hp0 (conj Hk0 Hr0))) Ex) as [A [sent [B [C D]]]].
+    cbn [fst snd]. split; [exact A|]. exists sent. split; [rewrite B, Hl0, <- app_assoc; reflexivity|]. split; [exact C|rewrite <- Hpe0; exact D]. }
+  destruct (is_subscription_error (su_status su)).
+  2:{ destruct (Hgo s [] HF Hp Hk Hrun) as [A [sent [B C]]]; [rewrite app_nil_r; reflexivity|reflexivity|].
+      split; [exact A|]. exists [], sent. split; [exact B|]. split; [left; reflexivity|exact C]. }
+  set (s1 := log_req s (ReqRegister t)).
+  assert (HF1 : FInv s1) by (apply (FInv_core s); auto).
+  assert (Hnone : forall e, (s1, RunErr e) = (s1, RunErr e) -> RunErr e <> RunFuel /\
+            exists reg sent, f_log s1 = f_log s ++ reg ++ map (ReqAdd t) sent /\ (reg = [] \/ reg = [ReqRegister t]) /\ NoDup sent /\ incl sent (retrier_pending s t)).
+  { intros e _. split; [discriminate|]. exists [ReqRegister t], []. cbn. repeat split; [right; reflexivity|constructor|intros y []]. }
+  destruct (at_reg a) as [slots start expiry sig_ok| | | |]; cbn [fst snd]; try (apply (Hnone _ eq_refl)).
+  destruct (negb sig_ok); cbn [fst snd]; [apply (Hnone _ eq_refl)|].
+  destruct (wt_add_update_tower (f_c s1) t (su_addr su) slots start expiry REG_SIG) as [c' r] eqn:Eu.
+  destruct (FInv_renew s1 t _ _ _ _ _ c' r HF1 Hp Hk Eu) as [HF2 Hok].
+  destruct r; cbn [fst snd]; try (split; [discriminate|]; exists [ReqRegister t], []; cbn; repeat split; [right; reflexivity|constructor|intros y []]).
+  destruct (Hok eq_refl) as [Hp2 Hkn2].
+  destruct (Hgo (wr_c s1 c') [ReqRegister t] HF2 Hp2 (proj2 (Hkn2 t) Hk) Hrun eq_refl eq_refl) as [A [sent [B C]]].
+  split; [exact A|]. exists [ReqRegister t], sent. split; [exact B|]. split; [right; reflexivity|exact C].
+Qed.
